@@ -67,6 +67,7 @@ def _check(args) -> dict:
 	except Exception as e:
 		return {'failures': [{'clause': 'accepted', 'detail': f'{type(e).__name__}: {str(e)[:200]}', 'text': cases[0]['text'], 'kind': 'batch'}], 'machinery': [], 'refused': 0}
 	refused = 0
+	accepted: list = []
 	for case, assign in zip(cases, assigns):
 		want = model_value(case['val'])
 		ref = python_value(case['text'])
@@ -96,6 +97,34 @@ def _check(args) -> dict:
 			continue
 		if got != want:
 			failures.append({'clause': 'ValueEqualsPython', 'detail': f'{case["text"]} folds to {got[0]} {got[1]}, Python gives {want[0]} {want[1]}', 'text': case['text'], 'kind': _kind(case['text'], want)})
+		else:
+			accepted.append((case, want))
+	# what the value is used for: the text emitted for `E.M.value` denotes the same value
+	if accepted:
+		import re
+		program2 = 'from enum import Enum\n\nclass E(Enum):\n' + ''.join(f'\tM{i} = {c["text"]}\n' for i, (c, _) in enumerate(accepted))
+		program2 += '\n' + ''.join(f'r{i} = E.M{i}.value\n' for i in range(len(accepted)))
+		try:
+			out = Env().transpile_source(program2)
+		except Exception as e:
+			failures.append({'clause': 'EmittedValue', 'detail': f'the folded values are accepted one by one but the module that reads them does not transpile: {type(e).__name__}: {str(e)[:160]}', 'text': accepted[0][0]['text'], 'kind': 'emission'})
+			out = ''
+		emitted = {int(m.group(1)): m.group(2) for m in re.finditer(r'^[\w:<> ]+ r(\d+) = (.*);$', out, re.M)}
+		for i, (case, want) in enumerate(accepted if out else []):
+			lit = emitted.get(i)
+			try:
+				if want[0] == 'int':
+					ok = lit is not None and int(lit, 0) == want[1]
+				elif want[0] == 'float':
+					ok = lit is not None and Fraction(float(lit)) == want[1]
+				elif any(ch in want[1] for ch in '"\'\\'):
+					continue  # how a quote inside a string value is spelled in the output language is not the folded value's business (C01)
+				else:
+					ok = lit is not None and ast.literal_eval(lit) == want[1]
+			except Exception:
+				ok = False
+			if not ok:
+				failures.append({'clause': 'EmittedValue', 'detail': f'{case["text"]} folds to {want[0]} {want[1]} but `E.M.value` is emitted as {lit!r}', 'text': case['text'], 'kind': f'emission:{want[0]}'})
 	return {'failures': failures, 'machinery': machinery, 'refused': refused}
 
 
